@@ -48,6 +48,7 @@ func InitGenesis(ctx context.Context, k keeper.Keeper, genState types.GenesisSta
 		if err != nil {
 			return err
 		}
+		elem.Bidder = bidder.String() // canonical spelling
 		if err := k.AllowedBidder.Set(ctx, collections.Join(elem.AuctionId, bidder), elem); err != nil {
 			return err
 		}
@@ -58,6 +59,11 @@ func InitGenesis(ctx context.Context, k keeper.Keeper, genState types.GenesisSta
 		_, err := k.Auction.Get(ctx, elem.AuctionId)
 		if errors.Is(err, collections.ErrNotFound) {
 			return fmt.Errorf("bid auction %d is not found", elem.AuctionId)
+		}
+
+		// records are looked up and compared by the canonical spelling of the address
+		if bidder, err := sdk.AccAddressFromBech32(elem.Bidder); err == nil {
+			elem.Bidder = bidder.String()
 		}
 
 		bidID, err := k.GetNextBidIdWithUpdate(ctx, elem.AuctionId)
